@@ -74,6 +74,18 @@ def privKey (H : Bytes → Bytes) (s I p : Bytes) : Nat := hInt H (s ++ H (I ++ 
 def multK (H : Bytes → Bytes) (G : Group) : Nat :=
   hInt H (natToBytes G.N ++ padN G (natToBytes G.g))
 
+/-- `_get_verifier`: `pow(g, _get_private_key(), N)` -/
+def getVerifier (H : Bytes → Bytes) (G : Group) (s I p : Bytes) : Nat := powMod G.g (privKey H s I p) G.N
+
+/-- `_derive_B`: `(k * v + pow(g, b, N)) % N` -/
+def deriveB (G : Group) (k v b : Nat) : Nat := (k * v + powMod G.g b G.N) % G.N
+
+/-- `_get_K`: `int(hashfunc(Sb).hexdigest(), 16)` (no caller left in the repaired `set_A`; still public) -/
+def getK (H : Bytes → Bytes) (Sb : Bytes) : Nat := hInt H Sb
+
+/-- `_get_HAMK`: `H(Ab ‖ M ‖ Kb)` -/
+def getHAMK (H : Bytes → Bytes) (Ab M Kb : Bytes) : Bytes := H (Ab ++ M ++ Kb)
+
 /-- `Server.__init__(ctx, u=I, p, s=s, b=b)` with the salt and secret already drawn
     (`s or os.urandom(..)`, `b or bytes_to_long(os.urandom(..))` are resolved by the caller). -/
 def mk (H : Bytes → Bytes) (G : Group) (I p s : Bytes) (b : Nat) : Server :=
@@ -82,6 +94,15 @@ def mk (H : Bytes → Bytes) (G : Group) (I p s : Bytes) (b : Nat) : Server :=
   let B := (k * v + powMod G.g b G.N) % G.N
   { G := G, s := s, I := I, p := p, v := v, k := k, b := b, B := B, Bb := natToBytes B,
     sess := none, verified := false }
+
+/-- `get_challenge`: `(self.s, self.B)` — the handler sends `long_to_bytes(B)` -/
+def Server.getChallenge (srv : Server) : Bytes × Nat := (srv.s, srv.B)
+
+/-- `get_session_key_bytes`: `self.Kb` (`None` before `set_A`) -/
+def Server.sessionKeyBytes (srv : Server) : Option Bytes := srv.sess.map (·.Kb)
+
+/-- `get_session_key`: `self.K` (`None` before `set_A`) -/
+def Server.sessionKey (srv : Server) : Option Nat := srv.sess.map (·.K)
 
 /-- `_get_M` -/
 def proofM (H : Bytes → Bytes) (G : Group) (I s Ab Bb Kb : Bytes) : Bytes :=
